@@ -466,7 +466,13 @@ func expandSite(s *inlineSite, k int, overlay map[string][]byte) (*expansion, er
 		}
 		if len(recvField.Names) == 1 && recvField.Names[0].Name != "_" {
 			if _, sub := substitute[hinfo.Defs[recvField.Names[0]]]; !sub {
-				fmt.Fprintf(&prelude, "var %s%s %s = %s\n_ = %s%s\n", recvField.Names[0].Name, suffix, typeStr(recvT), recvExpr, recvField.Names[0].Name, suffix)
+				if !wantPtr && havePtr && readsFieldsOnly(hinfo, helper, hinfo.Defs[recvField.Names[0]]) {
+					// a value receiver that is only read, field by field, by a body that stores
+					// nothing and calls nothing: the fields are read where they are, no copy
+					fmt.Fprintf(&prelude, "var %s%s %s = %s\n_ = %s%s\n", recvField.Names[0].Name, suffix, typeStr(xt), printExpr(sel.X), recvField.Names[0].Name, suffix)
+				} else {
+					fmt.Fprintf(&prelude, "var %s%s %s = %s\n_ = %s%s\n", recvField.Names[0].Name, suffix, typeStr(recvT), recvExpr, recvField.Names[0].Name, suffix)
+				}
 			}
 		} else {
 			fmt.Fprintf(&prelude, "_ = %s\n", recvExpr)
@@ -1480,4 +1486,85 @@ func isFieldChain(info *types.Info, e *ast.SelectorExpr) bool {
 			return false
 		}
 	}
+}
+
+// readsFieldsOnly: obj (a receiver or parameter of struct type) is used in the
+// helper only as the base of field selections that are read, and the body has
+// no store outside its own locals, no call of anything but a builtin or a
+// conversion, no closure, no send, no go or defer statement. Then binding obj
+// to a pointer to the argument instead of a copy of it cannot be observed
+// (as long as the pointer is not nil, in which case both forms panic before
+// or at the first field read).
+func readsFieldsOnly(info *types.Info, helper *ast.FuncDecl, obj types.Object) bool {
+	if obj == nil || helper.Body == nil {
+		return false
+	}
+	if _, isStruct := obj.Type().Underlying().(*types.Struct); !isStruct {
+		return false
+	}
+	ok := true
+	local := func(e ast.Expr) bool {
+		id, isId := e.(*ast.Ident)
+		if !isId {
+			return false
+		}
+		if id.Name == "_" {
+			return true
+		}
+		o := info.ObjectOf(id)
+		return o != nil && o != obj && o.Pos() >= helper.Body.Pos() && o.Pos() < helper.Body.End()
+	}
+	var stack []ast.Node
+	ast.Inspect(helper.Body, func(n ast.Node) bool {
+		if n == nil {
+			stack = stack[:len(stack)-1]
+			return true
+		}
+		stack = append(stack, n)
+		switch x := n.(type) {
+		case *ast.FuncLit, *ast.GoStmt, *ast.DeferStmt, *ast.SendStmt:
+			ok = false
+		case *ast.AssignStmt:
+			for _, l := range x.Lhs {
+				if !local(l) {
+					ok = false
+				}
+			}
+		case *ast.IncDecStmt:
+			if !local(x.X) {
+				ok = false
+			}
+		case *ast.RangeStmt:
+			if (x.Key != nil && !local(x.Key)) || (x.Value != nil && !local(x.Value)) {
+				ok = false
+			}
+		case *ast.UnaryExpr:
+			if x.Op == token.AND || x.Op == token.ARROW {
+				ok = false
+			}
+		case *ast.CallExpr:
+			tv, has := info.Types[x.Fun]
+			if !has || !(tv.IsType() || tv.IsBuiltin()) {
+				ok = false
+			}
+			if id, isId := x.Fun.(*ast.Ident); isId && tv.IsBuiltin() {
+				switch id.Name {
+				case "len", "cap", "min", "max":
+				default:
+					ok = false
+				}
+			}
+		case *ast.Ident:
+			if info.Uses[x] == obj {
+				sel, isSel := stack[len(stack)-2].(*ast.SelectorExpr)
+				if !isSel || sel.X != x {
+					ok = false
+				} else if s := info.Selections[sel]; s == nil || s.Kind() != types.FieldVal {
+					ok = false
+				}
+			}
+		}
+		return ok
+	})
+	return ok
 }
